@@ -1,9 +1,57 @@
+//go:build verif
 // +build verif
 
 // Verification hooks (build tag `verif` only).
 
 package evm
 
+import (
+	"bytes"
+	"sort"
+
+	"github.com/dappledger/AnnChain/eth/common"
+	"github.com/dappledger/AnnChain/gemmill/types"
+)
+
 // VerifSetValidateRoutines sets the number of signature-validating routines of the parallel
 // verifier (in production it is runtime.NumCPU()).
 func VerifSetValidateRoutines(n int) { validateRoutineCount = n }
+
+// VerifPoolTx identifies a pooled transaction.
+type VerifPoolTx struct {
+	From  [20]byte
+	Nonce uint64
+	Hash  [32]byte
+}
+
+// VerifPoolSnapshot lists what the transaction pool of the application holds: the pending and the
+// waiting transactions (per account in nonce order, accounts in address order), the hashes in the
+// lookup cache, the admin transactions and the length of the broadcast queue.
+func (app *EVMApp) VerifPoolSnapshot() (pending, waiting []VerifPoolTx, all [][32]byte, ext [][]byte, broadcast int) {
+	tp := app.pool
+	tp.Lock()
+	defer tp.Unlock()
+	list := func(m map[common.Address]*txSortedMap) []VerifPoolTx {
+		var addrs []common.Address
+		for a := range m {
+			addrs = append(addrs, a)
+		}
+		sort.Slice(addrs, func(i, j int) bool { return bytes.Compare(addrs[i][:], addrs[j][:]) < 0 })
+		var out []VerifPoolTx
+		for _, a := range addrs {
+			for _, tx := range m[a].Flatten() {
+				out = append(out, VerifPoolTx{a, tx.Nonce(), tx.Hash()})
+			}
+		}
+		return out
+	}
+	pending, waiting = list(tp.pending), list(tp.waiting)
+	for h := range tp.all {
+		all = append(all, h)
+	}
+	sort.Slice(all, func(i, j int) bool { return bytes.Compare(all[i][:], all[j][:]) < 0 })
+	for e := tp.extTxs.Front(); e != nil; e = e.Next() {
+		ext = append(ext, e.Value.(types.Tx))
+	}
+	return pending, waiting, all, ext, tp.broadcastQueue.Len()
+}
